@@ -51,20 +51,28 @@ def _events_match(regexes, deviations):
     return True
 
 
+def _pattern_matches(pat, v):
+    if not _scn_matches(pat.get('scenario'), v.get('scenario')):
+        return False
+    if not _events_match(pat.get('events'), v.get('deviations', [])):
+        return False
+    if 'max_deviations' in pat and len(v.get('deviations', [])) > pat['max_deviations']:
+        return False
+    if 'detail_regex' in pat and not re.search(pat['detail_regex'], str(v.get('detail'))):
+        return False
+    return True
+
+
 def match_known(known, prop_id, v):
     for k in known:
         if k['property'] != prop_id or k['clause'] != v['clause']:
             continue
         if k.get('where') is not None and k['where'] != v.get('where'):
             continue
-        pat = k.get('pattern', {})
-        if not _scn_matches(pat.get('scenario'), v.get('scenario')):
-            continue
-        if not _events_match(pat.get('events'), v.get('deviations', [])):
-            continue
-        if 'max_deviations' in pat and len(v.get('deviations', [])) > pat['max_deviations']:
-            continue
-        if 'detail_regex' in pat and not re.search(pat['detail_regex'], str(v.get('detail'))):
+        pats = k.get('pattern', {})
+        if not isinstance(pats, list):
+            pats = [pats]
+        if not any(_pattern_matches(pat, v) for pat in pats):
             continue
         return k
     return None
